@@ -396,7 +396,7 @@ def parse_text_match(el, cls):
     negate_condition = el.get("negate-condition", "no")
 
     return cls(
-        el.text,
+        el.text or "",
         collation=collation,
         negate_condition=(negate_condition == "yes"),
     )
